@@ -129,13 +129,24 @@ class QueryPlanner:
         #   main purpose: make tests working (don't change planner outputs)
         # can be removed in future (with adapting the tests) except 'cut integration part' block
 
+        # a table alias spelled like the integration: `alias.column` is not `integration.<something>`
+        table_aliases = set()
+
+        def _collect_table_aliases(node, is_table, **kwargs):
+            alias = getattr(node, 'alias', None)
+            if is_table and isinstance(alias, Identifier) and isinstance(alias.parts[-1], str):
+                table_aliases.add(alias.parts[-1].lower())
+
+        query_traversal(query, _collect_table_aliases)
+
         def _prepare_integration_select(node, is_table, is_target, parent_query, **kwargs):
             if not isinstance(node, Identifier):
                 return
 
             # cut integration part
             if len(node.parts) > 1 and node.parts[0].lower() == database:
-                node.parts.pop(0)
+                if is_table or len(node.parts) > 2 or database not in table_aliases:
+                    node.parts.pop(0)
 
             if not hasattr(parent_query, 'from_table'):
                 return
